@@ -178,6 +178,7 @@ type c11Cfg struct {
 	serveLoops int
 	closeDst   bool // close server 1 at a random point
 	allServe   bool // every node serves (no destination where asks go unanswered)
+	closeIdle  bool // close the node where nobody serves while asks to it are waiting
 }
 
 func c11Run(r *ev.Run, st *Stack, g *rng.R, caseID string, cfg c11Cfg, prop string, judgePrompt bool) {
@@ -274,6 +275,9 @@ func c11Run(r *ev.Run, st *Stack, g *rng.R, caseID string, cfg c11Cfg, prop stri
 				plan := lg.Intn(10)
 				if dst == unserved && plan > 2 {
 					plan = lg.Intn(3) // nobody serves there: only contexts that end soon
+					if cfg.closeIdle && lg.Bool() {
+						plan = 3 // ... or, when that node is going to be closed, a deadline long enough to be waiting when it is
+					}
 				}
 				switch {
 				case plan == 0:
@@ -376,6 +380,12 @@ func c11Run(r *ev.Run, st *Stack, g *rng.R, caseID string, cfg c11Cfg, prop stri
 				}
 			}
 		}()
+	}
+	// close the unserved destination while asks to it are waiting: they must end with an error, not with an empty success
+	if cfg.closeIdle && unserved >= 0 {
+		time.AfterFunc(time.Duration(500+g.Intn(3000))*time.Microsecond, func() {
+			go st.Nodes[unserved].Close()
+		})
 	}
 	// close destination 1 at a random point
 	if cfg.closeDst {
@@ -517,7 +527,7 @@ func runC11(r *ev.Run) {
 				continue
 			}
 			armStackHooks(cg)
-			cfg := c11Cfg{askers: cg.Range(2, 16), perAsker: pick(r, 25, 60), serveLoops: cg.Range(1, 4), closeDst: rep%2 == 1}
+			cfg := c11Cfg{askers: cg.Range(2, 16), perAsker: pick(r, 25, 60), serveLoops: cg.Range(1, 4), closeDst: rep%2 == 1, closeIdle: rep%2 == 0 && cg.Bool()}
 			if sf.Heavy {
 				cfg.perAsker = pick(r, 10, 30)
 			}
